@@ -776,6 +776,17 @@ func classify(base, got Obs) string {
 			b := caughtPos.ReplaceAllString(base.Out[i], "")
 			c := caughtPos.ReplaceAllString(got.Out[i], "")
 
+			// The generated programs print a caught error as "caught <msg>":
+			// an error that is caught is named like one that is not.
+			const caught = "OUT|caught "
+
+			switch bc, cc := strings.HasPrefix(b, caught), strings.HasPrefix(c, caught); {
+			case cc:
+				return "error:" + errSlug([]string{"Error: " + strings.TrimPrefix(c, caught)})
+			case bc:
+				return "error-vanishes:" + errSlug([]string{"Error: " + strings.TrimPrefix(b, caught)})
+			}
+
 			if d, ok := valueTypeDiff(b, c); ok {
 				return d
 			}
@@ -816,7 +827,7 @@ func valueTypeDiff(a, b string) (string, bool) {
 		return "", false
 	}
 
-	valueDiffers, typeDiffers, toType := false, false, ""
+	valueDiffers, typeDiffers := false, false
 
 	for i := range pa {
 		fa, fb := strings.Fields(pa[i]), strings.Fields(pb[i])
@@ -833,10 +844,6 @@ func valueTypeDiff(a, b string) (string, bool) {
 
 		if ta != tb {
 			typeDiffers = true
-
-			if toType == "" {
-				toType = tb
-			}
 		}
 
 		if va != vb {
@@ -848,7 +855,7 @@ func valueTypeDiff(a, b string) (string, bool) {
 	case valueDiffers && typeDiffers:
 		return "output-differs:value-and-type", true
 	case typeDiffers:
-		return "type-differs:to-" + slug(toType, 16), true
+		return "type-differs", true
 	case valueDiffers:
 		return "output-differs:value", true
 	}
